@@ -694,6 +694,16 @@ class Opaque:
         return f"<opaque {self._label}>"
 
 
+class StandIn:
+    """base class of the minimal stand-in objects of modular contracts (an 'operator' that only has .terms, ...): any other attribute the code asks for means the code's shape
+    differs from the one the contract was written for (ShapeChanged: the modular proof is skipped), it is not an exception of the code under contract"""
+
+    def __getattr__(self, a):
+        if a.startswith("__"):
+            raise AttributeError(a)
+        raise GhostUnsupported(f"attribute .{a} of the contract's stand-in object {type(self).__name__}")
+
+
 def stub(h, relfile, qualname, fn, log=None):
     """replace the repository function relfile::qualname by its CONTRACT for this run (modular verification: the caller is checked against the callee's
     contract, not its body).  fn(args, kwargs) -> result; calls are appended to `log` as (args, kwargs)"""
